@@ -222,6 +222,36 @@ fn raw_pull_concurrent_next(addr: std::net::SocketAddr, resource: &str) -> Value
     json!({"ev": "raw_cn", "open": "ok", "lasts": lasts, "after_last_only_errors": after_last_ok, "a": ka, "b": kb})
 }
 
+/// a LIBRARY puller (its stream id is hidden from the caller) is pulling from a slow producer when the stream is released
+/// from a second connection: the pull returns an error, or - if the release lost the race - the complete content; never a
+/// prefix of it passed off as the value
+fn lib_pull_released(addr: std::net::SocketAddr, n: usize, chunk: usize, via: &str, comp: u8) -> Value {
+    // stream ids are issued in sequence: open one by hand to learn where the sequence stands, and release it
+    let c0 = Client::connect(addr).unwrap();
+    let probe = c0.call_with_formats(svs::ROUTE_OPEN, 1, Some(&beve::to_vec(&OpenRequest { resource: "n=1,w=1,fail=-1,ps=0".into() }).unwrap()), 1).ok().and_then(|m| m.beve_body::<OpenResponse>().ok());
+    let Some(p) = probe else { return json!({"ev": "pull_released", "open": "err"}) };
+    let _ = c0.call_with_formats(svs::ROUTE_CANCEL, 1, Some(&beve::to_vec(&CancelRequest { stream_id: p.stream_id, reason: "probe".into() }).unwrap()), 1);
+    let res = format!("n={n},w={chunk},fail=-1,ps=40000");
+    let c = Client::connect(addr).unwrap();
+    let via2 = via.to_string();
+    let res2 = res.clone();
+    let puller = std::thread::spawn(move || -> Result<Vec<u8>, String> {
+        match via2.as_str() {
+            "pull_to_vec" => svs::pull_to_vec(&c, &res2).map_err(|e| e.to_string()),
+            _ => svs::pull_consume(&c, &res2, |rd| { let mut b = vec![]; rd.read_to_end(&mut b)?; Ok(b) }).map_err(|e| e.to_string()),
+        }
+    });
+    std::thread::sleep(Duration::from_millis(70));
+    let mut acked = false;
+    for guess in [p.stream_id + 1, p.stream_id + 2] {
+        if c0.call_with_formats(svs::ROUTE_CANCEL, 1, Some(&beve::to_vec(&CancelRequest { stream_id: guess, reason: "released from another connection".into() }).unwrap()), 1).is_ok() { acked = true; break; }
+    }
+    let r = puller.join().unwrap_or(Err("puller panicked".into()));
+    let want = logical("writer", n);
+    let (ok, equal, got_len) = match &r { Ok(b) => (true, decompress(comp, b).map(|d| d == want).unwrap_or(false) || *b == want, b.len()), Err(_) => (false, false, 0) };
+    json!({"ev": "pull_released", "open": "ok", "via": via, "n": n, "chunk": chunk, "release_acked": acked, "ok": ok, "equal": equal, "got_len": got_len, "err": r.err().unwrap_or_default().chars().take(80).collect::<String>()})
+}
+
 fn decompress(comp: u8, b: &[u8]) -> Option<Vec<u8>> {
     if comp == 0 { Some(b.to_vec()) } else { zstd::stream::decode_all(b).ok() }
 }
@@ -297,6 +327,14 @@ pub fn c09(a: &Args) -> i32 {
                     for fail in [-1i64, (2 * chunk) as i64] {
                         let mut e = raw_pull_concurrent_next(srv.addr, &format!("n={},w={},fail={fail},ps=30000", 3 * chunk, chunk));
                         e["producer"] = json!("writer"); e["comp"] = json!(compu); e["chunk"] = json!(chunk); e["depth"] = json!(depth); e["fail"] = json!(fail);
+                        out.push(&e); n_pulls += 1;
+                    }
+                }
+                // --- the stream is released from another connection while a library puller is in the middle of it
+                if chunk <= 64 && depth <= 1 {
+                    for via in ["pull_to_vec", "pull_consume"] {
+                        let mut e = lib_pull_released(srv.addr, 8 * chunk, chunk, via, compu);
+                        e["producer"] = json!("writer"); e["comp"] = json!(compu); e["depth"] = json!(depth);
                         out.push(&e); n_pulls += 1;
                     }
                 }
@@ -462,6 +500,7 @@ fn proxy(upstream: std::net::SocketAddr, cut_after: usize) -> std::net::SocketAd
             let mut h = [0u8; 48];
             if up.read_exact(&mut h).is_err() { break; }
             let total = u64::from_le_bytes(h[0..8].try_into().unwrap()) as usize;
+            if !(48..=(256usize << 20)).contains(&total) { break; } // never trust a declared length with an allocation
             let mut rest = vec![0u8; total - 48];
             if up.read_exact(&mut rest).is_err() { break; }
             if frames >= cut_after { break; }
